@@ -377,3 +377,157 @@ sys.exit(1 if bad else 0)
 
 def make_merge_script(history, follow, cls):
     return MERGE_SCRIPT.replace("__HISTORY__", repr(history)).replace("__FOLLOW__", repr(follow)).replace("__CLS__", repr(cls))
+
+
+STUB_SCRIPT = r'''# Stand-alone replay for C10 on real h5py: stub-made patch vs. direct update of the real record.
+import shutil, sys, tempfile
+from pathlib import Path
+import numpy as np
+if not hasattr(np, "cumproduct"):
+    np.cumproduct = np.cumprod  # pint 0.21 on numpy 2.x (import shim only)
+import h5py
+from metador_core.ih5.manifest import IH5MFRecord, IH5Manifest, IH5UBExtManifest
+from metador_core.ih5.record import hashsum_file
+from metador_core.ih5.skeleton import IH5Skeleton
+
+HISTORY = __HISTORY__   # one list of operations per container of the real record
+FOLLOW = __FOLLOW__     # existence-based update, applied once via a stub and once directly
+
+
+def is_ds(n):
+    return hasattr(n, "ndim")
+
+
+def val(v):
+    if isinstance(v, np.void):
+        return ("void", v.tobytes())
+    if isinstance(v, (int, np.integer)):
+        return int(v)
+    if isinstance(v, h5py.Empty):
+        return "EMPTY"
+    return repr(v)
+
+
+def tree(r):
+    out = {"/": ("g", None, {k: val(v) for k, v in r.attrs.items()})}
+    def cb(name, node):
+        out["/" + name] = ("d" if is_ds(node) else "g", val(node[()]) if is_ds(node) else None,
+                           {k: val(v) for k, v in node.attrs.items()})
+    r.visititems(cb)
+    return out
+
+
+def shape(r):
+    return {p: (str(getattr(i.node_type, "value", i.node_type)), sorted(i.attrs)) for p, i in IH5Skeleton.for_record(r).__root__.items()}
+
+
+def apply(r, op, v):
+    kind, p = op[0], op[1]
+    try:
+        if kind == "create_group": r.create_group(p)
+        elif kind in ("set", "setitem"): r[p] = v
+        elif kind in ("del", "delitem"): del r[p]
+        elif kind == "attr_set": r[p].attrs[op[2] if len(op) > 2 and op[2] else "k"] = v
+        elif kind == "attr_del": del r[p].attrs[op[2] if len(op) > 2 and op[2] else "k"]
+        else: raise AssertionError(op)
+        return "ok"
+    except (KeyError, ValueError, TypeError, OSError, RuntimeError) as e:
+        return "exc:" + type(e).__name__
+
+
+def manifest_problem(rec):
+    newest = Path(rec.ih5_files[-1])
+    ext = IH5UBExtManifest.get(rec.ih5_meta[-1])
+    side = Path(str(newest) + "mf.json")
+    if ext is None or not side.is_file():
+        return "manifest missing"
+    if hashsum_file(side) != ext.manifest_hashsum:
+        return "sidecar does not hash to manifest_hashsum"
+    mf = IH5Manifest.parse_file(side)
+    if mf.manifest_uuid != ext.manifest_uuid:
+        return "manifest uuid differs"
+    if mf.skeleton != IH5Skeleton.for_record(rec):
+        return "manifest skeleton differs from the current skeleton"
+    return None
+
+
+tmp = Path(tempfile.mkdtemp(prefix="vt_stub_"))
+bad = []
+try:
+    real_dir, stub_dir = tmp / "real", tmp / "stub"
+    real_dir.mkdir(); stub_dir.mkdir()
+    rec = IH5MFRecord(real_dir / "rec", "w")
+    n = 0
+    for i, ops in enumerate(HISTORY):
+        if i > 0:
+            rec.commit_patch()
+            rec.create_patch()
+        for op in ops:
+            n += 1
+            apply(rec, op, n)
+    rec.commit_patch(manifest_exts={"keep": 1})
+    p = manifest_problem(rec)
+    if p: bad.append(("after commit", p))
+    real_shape, nfiles = shape(rec), len(rec.ih5_files)
+    mfile = Path(str(rec.ih5_files[-1]) + "mf.json")
+    rec.close()
+    shutil.copytree(real_dir, tmp / "backup")
+    # (A) stub
+    stub = IH5MFRecord.create_stub(stub_dir / "stub", mfile)
+    if shape(stub) != real_shape:
+        bad.append(("stub skeleton differs from the real record's", shape(stub), real_shape))
+    for path, (kind, ats) in real_shape.items():
+        if kind == "dataset" and not isinstance(stub[path][()], h5py.Empty):
+            bad.append(("stub exposes data", path))
+        for a in ats:
+            if not isinstance(stub[path].attrs[a], h5py.Empty):
+                bad.append(("stub exposes an attribute value", path, a))
+    try:
+        stub.merge_files(stub_dir / "m")
+        bad.append(("merge of a stub not refused",))
+    except ValueError:
+        pass
+    stub.close()
+    s = IH5MFRecord(stub_dir / "stub", "r+")
+    r_stub = apply(s, FOLLOW, 7777)
+    s.commit_patch()
+    patch = Path(s.ih5_files[-1])
+    exts_stub = IH5Manifest.parse_file(Path(str(patch) + "mf.json")).manifest_exts
+    s.close()
+    if exts_stub != {"keep": 1}:
+        bad.append(("manifest extensions lost in the stub-made patch", exts_stub))
+    # (B) direct update
+    d = IH5MFRecord(real_dir / "rec", "r+")
+    r_direct = apply(d, FOLLOW, 7777)
+    d.commit_patch()
+    p = manifest_problem(d)
+    if p: bad.append(("after direct patch", p))
+    if d.manifest.manifest_exts != {"keep": 1}:
+        bad.append(("manifest extensions did not persist", d.manifest.manifest_exts))
+    t_direct, s_direct = tree(d), shape(d)
+    d.close()
+    if (r_stub == "ok") != (r_direct == "ok"):
+        bad.append(("update outcome differs", r_stub, r_direct))
+    # (C) real files + stub-made patch
+    comb = tmp / "backup"
+    target = comb / ("rec.p%d.ih5" % nfiles)
+    shutil.copy(patch, target)
+    shutil.copy(str(patch) + "mf.json", str(target) + "mf.json")
+    try:
+        both = IH5MFRecord(comb / "rec", "r")
+        if tree(both) != t_direct or shape(both) != s_direct:
+            bad.append(("real record + stub-made patch differs from the direct update", tree(both), t_direct))
+        both.close()
+    except ValueError as e:
+        bad.append(("stub-made patch not accepted by the real record", str(e)[:200]))
+finally:
+    shutil.rmtree(tmp, ignore_errors=True)
+for b in bad:
+    print("MISMATCH:", b)
+print("property holds on this history" if not bad else "PROPERTY VIOLATED")
+sys.exit(1 if bad else 0)
+'''
+
+
+def make_stub_script(history, follow):
+    return STUB_SCRIPT.replace("__HISTORY__", repr(history)).replace("__FOLLOW__", repr(follow))
